@@ -45,6 +45,7 @@ def gen(rng, outers=OUTERS, fault_rate=0.25):
             'fault': fault, 'custom_id': rng.random() < 0.5,
             'procs': rng.randint(0, 2), 'frames': rng.randint(2, 3),
             'act_before_fault': fault and rng.random() < 0.5,
+            'respawn_delete': rng.random() < 0.5,
             # whether the program deletes the entity again in later frames
             # (a deferred deletion must not need that, even when the frame
             # that applied it failed half way)
@@ -157,6 +158,11 @@ def run(case):
                     respawned.append(c.uid)
                 if fresh:
                     w.create_entity(*fresh, entity_id=E)
+                    if case.get('respawn_delete'):
+                        # ... and the new entity is at once asked to go at
+                        # the next frame (its own, new, deferred deletion)
+                        w.delete_entity(E)
+                        state['respawn_deleted'] = True
         elif a == 'add_same_type':
             # a component of the actor's own type is attached again to E
             # (during a replacement: while the incoming one is on its way)
@@ -343,6 +349,38 @@ def run(case):
     if not case['fault']:
         attached = sweep(2)
         if attached is None or not judge_components(2, attached):
+            return res
+        if respawned and state.get('respawn_deleted'):
+            res.stats['respawns_deleted_again_at_once'] += 1
+            # (marks set while a flush is running are served by that same
+            # flush, as for any other entity deleted from an on_remove: the
+            # new entity is either gone already or waits, whole, for the
+            # next frame)
+            missing = [u for u in respawned if attached.get(u) != E]
+            if w.entity_exists(E) or (missing and len(missing)
+                                      != len(respawned)):
+                res.div(2, 'reentry-new-deletion-lost', 'the new entity '
+                        'created under the dying id was asked to go with a '
+                        'deferred deletion of its own: it does not exist '
+                        'for entity_exists any more (and is either whole or '
+                        'gone)', {'missing': 'all or none', 'exists': False},
+                        {'missing': missing, 'exists': w.entity_exists(E)})
+                return res
+            try:
+                w.process(1)
+            except Exception as ex:
+                res.div(3, 'reentry-later-frame-fails', 'the frame after the '
+                        'respawn raised', 'no exception', repr(ex))
+                return res
+            left = [c.uid for c in w.get_components(E)]
+            if left or w.entity_exists(E):
+                res.div(3, 'reentry-new-deletion-lost', 'the deferred '
+                        'deletion requested for the new entity (created '
+                        'under the id of the entity being flushed) was not '
+                        'applied by the next process()', [],
+                        [left, w.entity_exists(E)])
+                return res
+            res.nontrivial = True
             return res
         if respawned:
             res.stats['respawns_under_the_dying_id'] += 1
@@ -762,4 +800,105 @@ def run_nested(case):
             return res
     res.nontrivial = len(expected) > len(pre) or bool(case.get('fault'))
     res.sample = {'log': [list(x) for x in log]}
+    return res
+
+
+# --------------------------------------------------------------------------
+# postponed callbacks of components nobody else refers to any more
+# --------------------------------------------------------------------------
+
+def gen_unref(rng):
+    return {'scenario': 'unreferenced',
+            'comps': [{'attach_disabled': rng.random() < 0.6,
+                       'how': rng.choice(['remove', 'delete_imm', 'replace',
+                                          'delete_def', 'clear_entity'])}
+                      for _ in range(rng.randint(1, 4))],
+            'collect': rng.random() < 0.8}
+
+
+def run_unref(case):
+    """Components created inline (the program keeps no reference), attached
+    and/or detached while dispatching is disabled: the callbacks they are
+    owed are "postponed rather than lost" - the world has to keep what it
+    needs to deliver them."""
+    import gc
+    desper = import_desper()
+    res = Res()
+    w = desper.World()
+    log = []
+
+    def on_add(self, entity, world):
+        log.append((self.uid, 'add', entity, world is w))
+
+    def on_remove(self, entity, world):
+        log.append((self.uid, 'remove', entity, world is w))
+
+    Comp = desper.event_handler('on_add', 'on_remove')(
+        type('Comp', (), {'on_add': on_add, 'on_remove': on_remove}))
+
+    def make(uid):
+        c = Comp()
+        c.uid = uid
+        return c
+
+    ents = {}
+    expected = {}
+    for k, spec in enumerate(case['comps']):
+        if not spec['attach_disabled']:
+            ents[k] = w.create_entity(make(k))
+    early = list(log)
+    del log[:]
+    w.dispatch_enabled = False
+    for k, spec in enumerate(case['comps']):
+        expected[k] = ['remove'] if k in ents else ['add', 'remove']
+        if k not in ents:
+            ents[k] = w.create_entity(make(k))
+    for k, spec in enumerate(case['comps']):
+        e = ents[k]
+        if spec['how'] == 'remove':
+            w.remove_component(e, Comp)
+        elif spec['how'] == 'delete_imm':
+            w.delete_entity(e, immediate=True)
+        elif spec['how'] == 'replace':
+            w.add_component(e, make(('new', k)))
+            expected[('new', k)] = ['add']
+        elif spec['how'] == 'clear_entity':
+            for c in w.get_components(e):
+                w.remove_component(e, type(c))
+            del c
+        else:
+            w.delete_entity(e)
+            w.process()
+    if log:
+        res.div(0, 'callback-while-disabled', 'a lifecycle callback ran while '
+                'dispatching was disabled', [], [list(x[:2]) for x in log])
+        return res
+    if case['collect']:
+        gc.collect()
+    try:
+        w.dispatch_enabled = True
+    except Exception as ex:
+        res.div(1, 'unreferenced-release-raised', 'the enabling assignment '
+                'raised', 'no exception', repr(ex))
+        return res
+    res.stats['unreferenced_batches'] += 1
+    res.stats['callback_sequences_checked'] += len(expected)
+    res.tags['unreferenced_how'].update(s['how'] for s in case['comps'])
+    for uid, want in expected.items():
+        got = [kind for u, kind, _, _ in log if u == uid]
+        if got != want:
+            res.div(1, 'unreferenced-callbacks-lost', f'component {uid!r} '
+                    '(created inline, no reference kept by the program) was '
+                    'attached and/or detached while dispatching was '
+                    'disabled: the callbacks it is owed are postponed, not '
+                    'lost', want, got)
+            return res
+    for u, kind, entity, same_world in log:
+        k = u[1] if isinstance(u, tuple) else u
+        if entity != ents[k] or not same_world:
+            res.div(1, 'unreferenced-owner', f'component {u!r}: callback '
+                    'with another owner or world', ents[k], entity)
+            return res
+    res.nontrivial = True
+    res.sample = {'log': [list(x[:2]) for x in log], 'early': len(early)}
     return res
